@@ -3,7 +3,7 @@ import vpl, re
 from concurrent.futures import ThreadPoolExecutor
 
 LEVEL = "proof"
-LIBS = ["SigmaArith.vo", "KeyRingLemmas.vo", "SigmaLemmas.vo", "SigmaFsLemmas.vo"]
+LIBS = ["SigmaArith.vo", "KeyRingLemmas.vo", "SigmaLemmas.vo", "SigmaFsLemmas.vo", "PedersenLemmas.vo"]
 
 
 def correspond_chunks(res, pid, out, drv, tier, seed, k):
@@ -26,10 +26,10 @@ def correspond_chunks(res, pid, out, drv, tier, seed, k):
     return mism
 
 def proto_groups(tier):
-    g = ["vtmf", "edcf", "skc", "rabin", "hoogh:0", "groth:0", "groth:1"] + ["direct:%d" % i for i in range(6)]
+    g = ["vtmf", "edcf", "skc", "rabin", "hoogh:0", "groth:0", "groth:1"] + ["direct:%d" % i for i in range(6)] + ["limits:0", "limits:1"]
     g += ["cutchoose:%d" % i for i in range(4 if tier == "quick" else 6)]
     if tier != "quick":
-        g += ["groth:2", "hoogh:1", "hoogh:2"]
+        g += ["groth:2", "hoogh:1", "hoogh:2", "limits:2", "limits:3"]
     return g
 
 def run(res, tier, seed, replay):
